@@ -35,7 +35,22 @@ SLICE_MARG = ["rows_margin", "columns_margin", "rows_base", "columns_base", "tab
 
 
 def generate(ctx):
-    return [sc.gen_case(ctx.rng) for _ in range(ctx.n(150, 3000))]
+    rng = ctx.rng
+    cases = [sc.gen_case(rng, min_base_choices=(0, 1, 2, 3, 5, 8, 10, 15, 20, 30)) for _ in range(ctx.n(150, 3000))]
+    # square tables over an array dimension with a threshold that the per-item bases straddle (mask orientation)
+    for _ in range(ctx.n(40, 600)):
+        n = rng.randint(2, 3)
+        kinds = rng.choice([["cat", "mr"], ["mr", "cat"], ["mr", "mr"], ["cat", "mr"]])
+        c = sc.gen_case(rng, kinds=kinds, max_n=n, missing_items=False)
+        vs = [sc.gen.Var.from_json(d) for d in c["vars"]]
+        # force the same number of valid elements on both dimensions
+        def ext(v):
+            return len(v.items) if v.is_array else len(v.valid_cat_pos)
+        if ext(vs[0]) != ext(vs[1]):
+            continue
+        c["min_base"] = rng.randint(1, max(2, len(c["survey"])))
+        cases.append(c)
+    return cases
 
 
 def lean_ops(case):
